@@ -177,10 +177,9 @@ Section Inv.
   Proof.
     intros Hi Hs. cbn [tstep] in Hs.
     destruct (nth_error (t_queries s) i) as [q|]; [|discriminate].
-    destruct (q_phase q); try discriminate. inversion Hs; subst; clear Hs.
-    apply tinv_queries; [exact Hi|]. apply Forall_update_nth'.
-    - intros x Hp. discriminate.
-    - exact (ti_queries s Hi).
+    destruct (q_phase q); try discriminate; inversion Hs; subst; clear Hs;
+      (apply tinv_queries; [exact Hi|]; apply Forall_update_nth';
+       [intros x Hp; discriminate | exact (ti_queries s Hi)]).
   Qed.
 
   Lemma applied_le s : tinv s -> t_applied s <= List.length (t_stream s).
